@@ -155,7 +155,7 @@ pub fn run(ctx: &Ctx) -> i32 {
     // One real `lace watch` process per sequence of file contents; after each save the verdict of
     // the (last) re-check is compared with `lace check` on the same content. An event that is not
     // observed within the time limit is inconclusive, never a violation.
-    let wsrc: [(&str, &str); 7] = [
+    let wsrc: [(&str, &str); 9] = [
         ("valid-a", "start add r0 r0 #1\nloop brp loop\ndata .fill x10\nhalt\n"),
         ("undefined-after-labels", "start add r0 r0 #1\nloop brz nowhere\ndata .fill x10\n"),
         ("valid-b-same-labels", "data .fill x5\nstart ld r0 data\nloop halt\n"),
@@ -163,6 +163,8 @@ pub fn run(ctx: &Ctx) -> i32 {
         ("lexer-error", "start add r0 r0 #1\n.bogus\n"),
         ("emission-error", "start br far\n.blkw x200\nfar halt\n"),
         ("valid-ref-on-line-1", "start br near\n.blkw x2\nnear halt\n"),
+        ("jsr-600-ahead", "jsr far\nhalt\n.blkw #600\nfar ret\n"),
+        ("br-600-ahead", "br far\nhalt\n.blkw #600\nfar ret\n"),
     ];
     let k = wsrc.len();
     let max_len = ctx.tier.pick(2, 3);
@@ -205,7 +207,7 @@ pub fn run(ctx: &Ctx) -> i32 {
         ctx,
         acc,
         Level { category: "model_checking", bfs: None },
-        "exhaustive configuration enumeration against the real binary: every source of a 140-source corpus (valid seeds; lexer / parser / backpatch errors; for each of the 8 PC-relative kinds an out-of-range label reference one beyond the field limit, forwards and backwards, at every statement position 0..4, and the in-range neighbour; sources using push / pop / call / rets; programs ending around the top of user space and of memory) x feature setting {none, -f stack} x {check, compile, run}. Each run is classified success / diagnostic / crash; a crash is a violation; check success <=> compile success; compile success <=> run gets past assembling. Part B drives the real `lace watch`: every sequence of up to 2 (thorough 3) saves over 7 file contents (valid; valid with an in-range reference on the statement where another content has an out-of-range one; undefined label after labels were recorded; valid with the same label names elsewhere; using labels it does not define; lexer error; emission-only error), and after each save the verdict of the re-check must equal `lace check` on that content (an unobserved event is inconclusive). non-trivial = (source, flag) pairs on which the three commands agree + watch sequences whose every re-check agreed",
+        "exhaustive configuration enumeration against the real binary: every source of a 140-source corpus (valid seeds; lexer / parser / backpatch errors; for each of the 8 PC-relative kinds an out-of-range label reference one beyond the field limit, forwards and backwards, at every statement position 0..4, and the in-range neighbour; sources using push / pop / call / rets; programs ending around the top of user space and of memory) x feature setting {none, -f stack} x {check, compile, run}. Each run is classified success / diagnostic / crash; a crash is a violation; check success <=> compile success; compile success <=> run gets past assembling. Part B drives the real `lace watch`: every sequence of up to 2 (thorough 3) saves over 9 file contents (valid; valid with an in-range reference on the statement where another content has an out-of-range one; undefined label after labels were recorded; valid with the same label names elsewhere; using labels it does not define; lexer error; emission-only error), and after each save the verdict of the re-check must equal `lace check` on that content (an unobserved event is inconclusive). non-trivial = (source, flag) pairs on which the three commands agree + watch sequences whose every re-check agreed",
         true,
         &["all-accept", "all-reject", "emission-only-error-rejected-by-all"],
         &["`lace watch` is driven through the file system; inotify event timing is outside the claim: unobserved re-checks are counted as inconclusive"],
